@@ -760,7 +760,9 @@ class TaskScenario(ScenarioData):
             # For effort-based tasks, always use the calculated end (when work actually completes)
             # even if an explicit end constraint was specified (that's just the deadline, not the actual end)
             effort = self.property.get("effort", self.scenarioIdx) or 0
-            if effort > 0 or not self.property.get("end", self.scenarioIdx):
+            # (a milestone got its dates in scheduleSlot(); an effort value it merely
+            # inherited from its container must not move its end)
+            if not is_milestone and (effort > 0 or not self.property.get("end", self.scenarioIdx)):
                 self.property[("end", self.scenarioIdx)] = actual_end
 
         self.scheduled = True
